@@ -1697,7 +1697,7 @@ class Translator:
         if id(x0) in self.builder_ids:
             self.cur.dropped.append(('message text', self._line(n)))
             return
-        if any(id(n) == id(s) for s in self.sinks):
+        if any((id(n) == id(s) or id(x0) == id(s)) and s.get('kind') != 'CXXThrowExpr' for s in self.sinks):
             self.cur.dropped.append(('log', self._line(n)))
             return
         thr = [x for x in walk(n) if x.get('kind') == 'CXXThrowExpr']
